@@ -244,6 +244,12 @@ type scen struct {
 	out, rew, dep bal4
 	start, end    time.Time
 	origFee       *big.Int
+	// tracking values of the recent past: a handler that reads DL/DF before it has refreshed or
+	// updated them decides with exactly these values
+	prevDL, prevDF *big.Int // stored DL / DF before the previous step
+	lastOK         string   // kind of the last successful operation of the history
+	hotLeft        int      // boundary sends still to be issued for the current "tracking changed" moment
+	hotSig         string   // the moment already used
 }
 
 func (s *scen) proxy(ctx sdk.Context) sdk.AccAddress {
@@ -694,6 +700,13 @@ func (s *scen) emit(pre *worldObs, opTerm string, code int, post *worldObs, o op
 	e.ncases++
 	res := []string{"ok", "err", "panic"}[code]
 	e.st.Count(o.Kind + ":" + res)
+	s.prevDL, s.prevDF = pre.DL, pre.DF
+	if code == 0 && o.Kind != "Block" {
+		s.lastOK = o.Kind
+	}
+	if o.Kind == "Send" && o.ES == pre.Owner && o.MS == pre.Owner && code != 2 && s.maturedUnswept(pre) {
+		e.st.Count("Send:first-after-maturity:" + res)
+	}
 	// non-trivial: owner action while 0 < locked(now) < original and DL > 0
 	if o.Kind != "Block" && o.Kind != "Deposit" && pre.Locked != nil {
 		for _, p := range pre.Locked {
@@ -815,7 +828,7 @@ func (e *env) safeTime(t time.Time) time.Time {
 func (e *env) newScenario(sd bool, owner int, start, end time.Time, startZero bool, funds []coin) (*scen, error) {
 	h := e.h
 	ctx := e.ctx()
-	s := &scen{e: e, sd: sd, owner: owner, scDel: big.NewInt(0), out: zero4(), rew: zero4(), dep: zero4()}
+	s := &scen{e: e, sd: sd, owner: owner, scDel: big.NewInt(0), out: zero4(), rew: zero4(), dep: zero4(), prevDL: big.NewInt(0), prevDF: big.NewInt(0)}
 	st := start
 	if startZero {
 		st = time.Time{}
@@ -878,7 +891,85 @@ func (s *scen) amountNear(r *emit.Rand, ref *big.Int) *big.Int {
 	}
 }
 
-func (s *scen) spendable(w *worldObs) *big.Int {
+func (s *scen) spendable(w *worldObs) *big.Int { return s.spendableWith(w, w.DL) }
+
+// maturedUnswept: the account has recorded an unbond entry that is mature and not yet swept
+func (s *scen) maturedUnswept(w *worldObs) bool {
+	for _, kv := range w.Ent {
+		for _, en := range kv.L {
+			if en.End <= w.Now {
+				return true
+			}
+		}
+	}
+	return false
+}
+
+func (s *scen) maturedSig(w *worldObs) string {
+	sig := ""
+	for _, kv := range w.Ent {
+		for _, en := range kv.L {
+			if en.End <= w.Now {
+				sig += fmt.Sprintf("%d:%d,", kv.Val, en.End)
+			}
+		}
+	}
+	return sig
+}
+
+// refreshed replays checkUnbondingEntriesMature on the observed entries (per validator: the mature
+// prefix; DelegatedFree is reduced first, then DelegatedLocking) -- the values a correct handler uses
+func (s *scen) refreshed(w *worldObs) (dl, df *big.Int) {
+	dl, df = new(big.Int).Set(w.DL), new(big.Int).Set(w.DF)
+	minB := func(a, b *big.Int) *big.Int {
+		if a.Cmp(b) < 0 {
+			return a
+		}
+		return b
+	}
+	for _, kv := range w.Ent {
+		for _, en := range kv.L {
+			if en.End > w.Now {
+				break
+			}
+			x := minB(df, en.Amt)
+			y := minB(dl, new(big.Int).Sub(en.Amt, x))
+			df = new(big.Int).Sub(df, x)
+			dl = new(big.Int).Sub(dl, y)
+		}
+	}
+	return
+}
+
+// boundary: the amounts at which a Send flips between allowed and refused, for the refreshed
+// tracking values and for every stale or wrong value a handler could read instead (stored before
+// the refresh, before the previous operation, DL+DF, none at all, everything)
+func (s *scen) boundary(r *emit.Rand, w *worldObs) *big.Int {
+	rdl, _ := s.refreshed(w)
+	cands := []*big.Int{
+		s.spendableWith(w, rdl), s.spendableWith(w, rdl),
+		s.spendableWith(w, w.DL), s.spendableWith(w, w.DL),
+		s.spendableWith(w, s.prevDL),
+		s.spendableWith(w, new(big.Int).Add(w.DL, w.DF)),
+		s.spendableWith(w, big.NewInt(0)),
+		w.AB[dFEE-1],
+	}
+	x := new(big.Int).Set(cands[r.Intn(len(cands))])
+	switch r.Intn(4) {
+	case 0:
+		x.Add(x, big.NewInt(1))
+	case 1:
+		if x.Sign() > 1 {
+			x.Sub(x, big.NewInt(1))
+		}
+	}
+	if x.Sign() <= 0 {
+		x = big.NewInt(1)
+	}
+	return x
+}
+
+func (s *scen) spendableWith(w *worldObs, dlv *big.Int) *big.Int {
 	if w.Locked == nil {
 		return w.AB[dFEE-1]
 	}
@@ -889,8 +980,8 @@ func (s *scen) spendable(w *worldObs) *big.Int {
 		}
 	}
 	m := L
-	if w.DL.Cmp(L) < 0 {
-		m = w.DL
+	if dlv.Cmp(L) < 0 {
+		m = dlv
 	}
 	nb := new(big.Int).Sub(L, m)
 	sp := new(big.Int).Sub(w.AB[dFEE-1], nb)
@@ -942,6 +1033,9 @@ func (s *scen) sendCoins(r *emit.Rand, w *worldObs, fromProxy bool) []coin {
 	case 9, 10:
 		return []coin{{dUSDC, s.posAmount(r, src[dUSDC-1])}}
 	}
+	if !fromProxy && r.Chance(1, 2) {
+		return []coin{{dFEE, s.boundary(r, w)}}
+	}
 	return []coin{{dFEE, s.posAmount(r, feeRef)}}
 }
 
@@ -978,6 +1072,25 @@ func (s *scen) randomStep(r *emit.Rand) error {
 		e.ctxTime = e.safeTime(s.pickTime(r, s.observe(e.ctx())))
 	}
 	w := s.observe(e.ctx())
+	// the tracking values are about to change or have just changed (an unbond entry matured and is
+	// not swept yet; unbonded stake was just withdrawn from the proxy): let the owner's next
+	// operations be Sends at the boundary amounts, before anything else refreshes the account
+	sig := s.maturedSig(w)
+	if s.lastOK == "WithdrawUnbonded" {
+		sig += "/withdrawn"
+	}
+	hot := w.Locked != nil && sig != "" && sig != s.hotSig
+	if hot && s.hotLeft == 0 {
+		s.hotSig = sig // each such moment is used once
+		if r.Chance(3, 4) {
+			s.hotLeft = 1 + r.Intn(3)
+		}
+	}
+	if s.hotLeft > 0 {
+		s.hotLeft--
+		s.doExec(opDesc{Kind: "Send", ES: s.owner, MS: s.owner, To: "TOut", Coins: []coin{{dFEE, s.boundary(r, w)}}}, "gen:boundary")
+		return nil
+	}
 	es, ms := s.senders(r)
 	type cand struct {
 		w int
@@ -1490,5 +1603,77 @@ func (e *env) corpus() error {
 		return err
 	}
 	d.doExec(opDesc{Kind: "Send", ES: es, MS: ms, To: "TOut", Coins: []coin{{dFEE, big.NewInt(1)}}}, "corpus:d-send-after-both")
+
+	// (e)-(h): the tracking values must be refreshed BEFORE they are used.  After an unbonding
+	// has completed and the stake is back in the balance, the owner's FIRST operation is a Send of
+	// exactly what would be spendable with the stale (pre-refresh) DelegatedLocking: it must be
+	// refused; one more than the refreshed spendable amount must be refused; the refreshed
+	// spendable amount itself must pass.  Fully locked (schedule not started) and half-way variants,
+	// both account kinds, Send path and withdraw path.
+	sendAt := func(sc *scen, amt *big.Int, tag string) {
+		if amt.Sign() <= 0 {
+			amt = big.NewInt(1)
+		}
+		o1, o2 := own(sc)
+		sc.doExec(opDesc{Kind: "Send", ES: o1, MS: o2, To: "TOut", Coins: []coin{{dFEE, amt}}}, tag)
+	}
+	staleThenFresh := func(sc *scen, stale *big.Int, tag string) {
+		w := sc.observe(e.ctx())
+		rdl, _ := sc.refreshed(w)
+		if stale == nil {
+			stale = w.DL
+		}
+		sendAt(sc, sc.spendableWith(w, stale), tag+":send-stale-spendable")
+		w = sc.observe(e.ctx())
+		rdl, _ = sc.refreshed(w)
+		sendAt(sc, new(big.Int).Add(sc.spendableWith(w, rdl), big.NewInt(1)), tag+":send-fresh-spendable+1")
+		w = sc.observe(e.ctx())
+		rdl, _ = sc.refreshed(w)
+		sendAt(sc, sc.spendableWith(w, rdl), tag+":send-fresh-spendable")
+	}
+	for _, v := range []struct {
+		tag      string
+		startOff time.Duration
+	}{{"corpus:e-nv-locked", 200 * day}, {"corpus:f-nv-halfway", -200 * day}} {
+		sc := e.initCase(false, e.now().Add(v.startOff), e.now().Add(v.startOff+400*day), false, false, []coin{{dFEE, big.NewInt(1_000_000)}}, v.tag)
+		if sc == nil {
+			return fmt.Errorf("%s: init failed", v.tag)
+		}
+		es, ms = own(sc)
+		sc.doExec(opDesc{Kind: "Delegate", ES: es, MS: ms, Val: 3, D: dFEE, Amt: big.NewInt(600_000)}, v.tag+":delegate")
+		sc.doExec(opDesc{Kind: "Undelegate", ES: es, MS: ms, Val: 3, D: dFEE, Amt: big.NewInt(500_000)}, v.tag+":undelegate")
+		if err := sc.doBlock(e.safeTime(e.now().Add(22*day)), v.tag); err != nil {
+			return err
+		}
+		staleThenFresh(sc, nil, v.tag)
+		// the same moment again, this time the first operation after maturity is a Delegate
+		sc.doExec(opDesc{Kind: "Undelegate", ES: es, MS: ms, Val: 3, D: dFEE, Amt: big.NewInt(60_000)}, v.tag+":undelegate-2")
+		if err := sc.doBlock(e.safeTime(e.now().Add(22*day)), v.tag); err != nil {
+			return err
+		}
+		// (more than locked - stale DL, so that a stale read splits the amount differently between DL and DF)
+		sc.doExec(opDesc{Kind: "Delegate", ES: es, MS: ms, Val: 3, D: dFEE, Amt: big.NewInt(450_000)}, v.tag+":delegate-first-after-maturity")
+	}
+	for _, v := range []struct {
+		tag      string
+		startOff time.Duration
+	}{{"corpus:g-sd-locked", 200 * day}, {"corpus:h-sd-halfway", -200 * day}} {
+		sc := e.initCase(true, e.now().Add(v.startOff), e.now().Add(v.startOff+400*day), false, false, []coin{{dFEE, big.NewInt(1_000_000)}}, v.tag)
+		if sc == nil {
+			return fmt.Errorf("%s: init failed", v.tag)
+		}
+		es, ms = own(sc)
+		sc.doExec(opDesc{Kind: "SelfDelegate", ES: es, MS: ms, Amt: big.NewInt(600_000)}, v.tag+":self-delegate")
+		sc.doExec(opDesc{Kind: "PUndelegate", ES: es, MS: ms, Amt: big.NewInt(500_000)}, v.tag+":proxy-undelegate")
+		if err := sc.doBlock(e.safeTime(e.now().Add(22*day)), v.tag); err != nil {
+			return err
+		}
+		// unbonded stake sits at the proxy: nothing more is spendable yet
+		staleThenFresh(sc, nil, v.tag+":before-withdraw")
+		w0 := sc.observe(e.ctx())
+		sc.doExec(opDesc{Kind: "WithdrawUnbonded", ES: es, MS: ms, Amt: big.NewInt(500_000)}, v.tag+":withdraw-unbonded")
+		// ... and after the withdrawal only with the reduced DelegatedLocking
+		staleThenFresh(sc, w0.DL, v.tag+":after-withdraw")
+	}
 	return nil
 }
